@@ -590,7 +590,7 @@ func runC19Waiting(c *Ctx) {
 				obs = "closed"
 			}
 		}
-		c.Out.Case(cid, "C19", "skip", "skip")
+		c.Out.Case(cid, "C19", fmt.Sprintf("wait %d", n), obs)
 		switch {
 		case crash != "":
 			c.Out.Oracle(cid, false, "crash", crash)
